@@ -283,6 +283,11 @@ class QGen:
         l, lt = self.term(NUMERIC)
         if lt is None:
             return ("bin", op, l, num("1"))
+        if valid and r.random() < 0.08 and l[0] == "id":
+            # a signal against its own previous value ("changed", "rose", "fell": the documented use of LAG), often
+            # beside a second signal, so that rounds caused by the other signal evaluate it too
+            return ("bin", r.choice(["<>", "<>", ">", "<", "="]), l, ("lag", l)) if r.random() < 0.5 else \
+                ("bin", r.choice(["<>", "<>", ">", "<"]), ("lag", l), l)
         if valid and r.random() < 0.04:
             # a subquery as operand: refused (it used to be evaluated as its index among the subqueries, F29)
             s2 = self.sig(NUMERIC)
@@ -1138,10 +1143,27 @@ def monitor(lines, out):
                 for s in subs.values():
                     if not s["open"]:
                         s["dead"] = True
+            round_failed = any(not s["open"] for s in subs.values())
             for h, s in subs.items():
                 if s["v"][0] != "ok" or not s["open"]:
                     continue
                 fails += judge(s, [[110, h, 0]] if False else resp.get(h, []), (changed, unsure), store, before, P, ticked)
+                # lag bookkeeping as this subscription can rely on it: a signal that changed in this round has caught
+                # up iff the subscription was sent a response for the round (and no notification of the round failed)
+                sy = s.setdefault("synced", {})
+                emitted = bool(resp.get(h)) and not round_failed
+                for path in changed | unsure:
+                    sy[path] = emitted and path in changed
+                if emitted:
+                    _, tp, tw = s["v"]
+                    ins = set()
+                    for (_n, t) in tp:
+                        ins |= signals_of(t)
+                    if tw is not None:
+                        ins |= signals_of(tw)
+                    for path in ins:
+                        if path not in unsure:
+                            sy[path] = True
             for h in resp:
                 if h not in subs:
                     fails.append("C12-spurious: a response for an unknown subscription %d" % h)
@@ -1194,7 +1216,10 @@ def judge(s, got, change, store, before, P, ticked, initial=False):
         triggered = bool(changed & inputs)
 
     def prev(path):
-        # LAG is judged only where the property pins it down: at an evaluation caused by a change of that signal
+        # LAG is judged where the property and doc/QUERY.md pin it down: at an evaluation caused by a change of that
+        # signal it is the value before the change; and once THIS subscription has been sent a response for the
+        # round in which the signal last changed, the previous value has caught up with the current one (QUERY.md
+        # 2.1: "LAG() == current value until the next change") - whatever other subscriptions exist
         v = visible(path)
         if v is None:
             return UNKNOWN
@@ -1202,6 +1227,8 @@ def judge(s, got, change, store, before, P, ticked, initial=False):
             return (E.NA, None)
         if path in changed:
             return before.get(path, UNKNOWN)
+        if s.get("synced", {}).get(path) is True:
+            return store.get(path, UNKNOWN)
         return UNKNOWN
 
     if not triggered:
@@ -1280,3 +1307,60 @@ def pretty(lines):
         else:
             out.append(H.show_op(d))
     return out
+
+
+# ---------------------------------------------------------------- C03 on query results
+def disclosure_monitor(lines, out):
+    """no value of a signal in a query response unless the subscriber's token grants read on it and has not
+    expired (C03, "or a query result"): every projected plain signal (or LAG of one) of every response is looked
+    up in the permission oracle; what the condition reveals is not judged here"""
+    al = split_outputs(lines, out)
+    if al is None:
+        return []
+    fails = []
+    P = H.Principals()
+    subs = {}
+    ticked = False
+    for d, o in al:
+        name = d["name"]
+        if not o or o[0] in ([-1], [-77], [-66]):
+            continue
+        if name == "PERM":
+            P.add(d["scope"], d["exp"])
+        elif name == "TICK":
+            ticked = True
+        rows = []
+        if name == "SUBQ" and o[0][:1] == [0] and len(o[0]) > 1:
+            q = d.get("query")
+            if q is not None:
+                # projection item k -> the signal it shows (plain identifier or LAG of one), else None
+                shown = []
+                for it in q[0]:
+                    e = strip(it[1]) if it[0] != "wild" else None
+                    if e is not None and e[0] == "lag":
+                        e = strip(e[1])
+                    shown.append(e[1] if e is not None and e[0] == "id" else None)
+                subs[o[0][1]] = (d["p"], shown, d["sql"])
+            rows = o[1:]
+        elif name == "UPDATE":
+            rows = o[1:]
+        for l in rows:
+            if not l or l[0] != 110:
+                continue
+            try:
+                h, fs = dec_response(l)
+            except (IndexError, TypeError, ValueError):
+                continue
+            if h not in subs:
+                continue
+            p, shown, sql_text = subs[h]
+            if len(shown) != len(fs):
+                continue            # through the sdv handler a response is a map: positions are lost
+            for path, (fname, v) in zip(shown, fs):
+                if path is None or v[0] == E.NA:
+                    continue
+                c = P.can(p, "read", path, ticked)
+                if c is False:
+                    fails.append("C03-query: subscription %d of p%d (%s) was sent the value of %s, which its token %s" % (
+                        h, p, sql_text, path, "cannot read (or that has expired)"))
+    return fails
